@@ -20,7 +20,7 @@ ASSUMPTIONS = ["cells never written (array created from shape only, or exposed b
 
 NSHARDS = 16
 DTYPES = ["uint8", "uint16", "uint32", "uint64", "int8", "int16", "int32", "int64", "float32", "float64", "bool", "text"]
-STEPS = ["whole", "region", "append", "shrink", "grow", "reopen"]
+STEPS = ["whole", "region", "append", "shrink", "grow", "reopen", "refused_append"]
 
 
 def plan(tier, seed):
@@ -189,9 +189,7 @@ def run_case(ctx, nix, np, path, rng, recipe, rep):
                     elif how == "np.array":
                         got = np.array(d)
                     else:
-                        if dt == "text":
-                            continue
-                        got = np.empty(model.shape, dtype=np.dtype(dt))
+                        got = np.empty(model.shape, dtype=object if dt == "text" else np.dtype(dt))
                         d.read_direct(got)
                     why = c.same(np.asarray(got), model, mask, dt)
                     if why:
@@ -258,6 +256,24 @@ def run_case(ctx, nix, np, path, rng, recipe, rep):
                     da.append(v, axis=ax)
                     model = np.concatenate([model, v], axis=ax)
                     mask = np.concatenate([mask, np.ones(v.shape, dtype=bool)], axis=ax)
+                elif op == "refused_append":
+                    # values no array can take (complex numbers, objects): the append must be refused, and what is read afterwards
+                    # is still exactly what was written before
+                    ax = rng.randrange(model.ndim)
+                    sh = list(model.shape)
+                    sh[ax] = rng.randint(1, 2)
+                    if int(np.prod(sh)) == 0:
+                        continue            # an empty block holds no value that could be refused
+                    junk = rng.choice([np.full(sh, 1 + 2j), np.full(sh, None, dtype=object)])
+                    if dt == "text" and junk.dtype == object:
+                        junk = np.full(sh, 1 + 2j)
+                    try:
+                        da.append(junk, axis=ax)
+                        ctx.observe("unsupported_values_appended_without_error", {"dtype": dt, "values": str(junk.dtype)})
+                        done.append("unsupported_append_accepted")
+                        return done         # what such an array holds is not specified: the case ends here
+                    except Exception:
+                        ctx.count("refused_appends")
                 elif op == "shrink":
                     ns = tuple(rng.randint(0, s) for s in model.shape)
                     da.data_extent = ns
